@@ -62,11 +62,15 @@ DocSpace == [plK1 : BOOLEAN, plK2 : BOOLEAN,                 \* path-level param
              qcontent : BOOLEAN,                             \* Z's own parameter is described by "content" instead of "schema" (3.x)
              secgen : BOOLEAN,                               \* FALSE: the user switched security parameters off in the configuration
              oNoId : BOOLEAN,                                \* O has no operationId
+             mbroken : BOOLEAN,                              \* M uses a definition from the shared file whose own NESTED $ref is dangling
+                                                             \*   (M must be reported); O and Z then use the root-local pointer "Lim", which
+                                                             \*   the shared file defines too, with other content: they get the ROOT's (tag 12)
              sec : Secs,                                     \* security scheme kind ("off": global, disabled on M)
              bad : Bads]                                     \* malformed entry in Z
 Base == [plK1 |-> TRUE, plK2 |-> FALSE, olK1 |-> TRUE, olK2 |-> FALSE, olK3 |-> FALSE, orient |-> "pT",
          pdepth |-> 1, odepth |-> 0, pathRef |-> FALSE, body |-> "two", rec |-> FALSE, cross |-> "none", zpath |-> "/z", collide |-> FALSE,
-         ver |-> "3.0", qcontent |-> FALSE, secgen |-> TRUE, oNoId |-> FALSE, sec |-> "hdr", bad |-> "none"]
+         ver |-> "3.0", qcontent |-> FALSE, secgen |-> TRUE, oNoId |-> FALSE, mbroken |-> FALSE,
+         sec |-> "hdr", bad |-> "none"]
 B2N(b) == IF b THEN 1 ELSE 0
 Weight(d) == B2N(d.plK1 # Base.plK1) + B2N(d.plK2 # Base.plK2) + B2N(d.olK1 # Base.olK1) + B2N(d.olK2 # Base.olK2)
            + B2N(d.olK3 # Base.olK3) + B2N(d.orient # Base.orient) + B2N(d.pdepth # Base.pdepth)
@@ -75,12 +79,14 @@ Weight(d) == B2N(d.plK1 # Base.plK1) + B2N(d.plK2 # Base.plK2) + B2N(d.olK1 # Ba
            + B2N(d.rec # Base.rec) + B2N(d.sec # Base.sec) + B2N(d.bad # Base.bad) + B2N(d.cross # Base.cross)
            + B2N(d.zpath # Base.zpath) + B2N(d.collide # Base.collide) + B2N(d.ver # Base.ver)
            + B2N(d.qcontent # Base.qcontent) + B2N(d.secgen # Base.secgen) + B2N(d.oNoId # Base.oNoId)
+           + B2N(d.mbroken # Base.mbroken)
 WF(d) == /\ (d.rec => d.body # "none")
          /\ ((~d.olK1 /\ ~d.olK2 /\ ~d.olK3 /\ d.cross = "none") => d.odepth = 0)
          /\ (d.collide => d.pathRef)                  \* two documents are needed for two definitions under one pointer text
          /\ (d.ver = "2.0" => ~d.qcontent /\ d.bad # "noschema" /\ d.sec \notin {"ref", "refall"})   \* 2.0 has no "content", no parameter "schema", no $ref there
          /\ (d.qcontent => d.bad = "none")
          /\ (d.rec => d.body # "form")
+         /\ (d.mbroken => ~d.pathRef /\ ~d.collide)
 (* all documents within MaxDev single-feature changes of Base (built by changing one feature at a time) *)
 Variants(d) == {[d EXCEPT !.plK1 = b] : b \in BOOLEAN} \cup {[d EXCEPT !.plK2 = b] : b \in BOOLEAN}
           \cup {[d EXCEPT !.olK1 = b] : b \in BOOLEAN} \cup {[d EXCEPT !.olK2 = b] : b \in BOOLEAN}
@@ -90,7 +96,7 @@ Variants(d) == {[d EXCEPT !.plK1 = b] : b \in BOOLEAN} \cup {[d EXCEPT !.plK2 = 
           \cup {[d EXCEPT !.rec = b] : b \in BOOLEAN} \cup {[d EXCEPT !.sec = x] : x \in Secs}
           \cup {[d EXCEPT !.bad = x] : x \in Bads} \cup {[d EXCEPT !.cross = x] : x \in {"none", "fwd", "mirror"}}
           \cup {[d EXCEPT !.ver = x] : x \in Vers} \cup {[d EXCEPT !.qcontent = b] : b \in BOOLEAN}
-          \cup {[d EXCEPT !.secgen = b] : b \in BOOLEAN} \cup {[d EXCEPT !.oNoId = b] : b \in BOOLEAN}
+          \cup {[d EXCEPT !.secgen = b] : b \in BOOLEAN} \cup {[d EXCEPT !.mbroken = b] : b \in BOOLEAN} \cup {[d EXCEPT !.oNoId = b] : b \in BOOLEAN}
           \cup {[d EXCEPT !.zpath = x] : x \in ZPaths} \cup {[d EXCEPT !.collide = TRUE, !.pathRef = TRUE], [d EXCEPT !.collide = FALSE]}
 RECURSIVE Within(_, _)
 Within(S, n) == IF n = 0 THEN S ELSE Within(S \cup UNION {Variants(d) : d \in S}, n - 1)
@@ -113,7 +119,8 @@ OpLevel(d, t) == CASE t = "M" -> {Param(KName(k), KLoc(k), d.orient = "oT", 2) :
                                   \cup (IF d.cross = "fwd" THEN {Param("c", "header", d.orient = "oT", 7), Param("d", "query", d.orient = "oT", 9)}
                                         ELSE IF d.cross = "mirror" THEN {Param("c", "query", d.orient = "oT", 7)}
                                         ELSE {})
-                   [] t = "Z" -> {Param("q", "query", FALSE, 4)} \cup (IF d.collide THEN {Param("lim", "query", FALSE, 12)} ELSE {})
+                   [] t = "Z" -> {Param("q", "query", FALSE, 4)} \cup (IF d.collide \/ d.mbroken THEN {Param("lim", "query", FALSE, 12)} ELSE {})
+                   [] t = "O" -> IF d.mbroken THEN {Param("lim", "query", FALSE, 12)} ELSE {}
                    [] t = "W" -> {Param("w", "query", FALSE, 11)}
                    [] OTHER   -> {}
 (* THE merge rule of the property: path-level parameters overridden by operation-level ones of the same name and location *)
@@ -142,7 +149,7 @@ BodiesOf(d, t) == IF t # "M" THEN {}
 RespKeys(t) == IF t = "M" THEN {"200", "404", "default"} ELSE {"200"}
 PropNames == {"no", "on", "v"}
 DateScalar == "2020-01-01"
-Malformed(d, t) == t = "Z" /\ d.bad # "none"
+Malformed(d, t) == (t = "Z" /\ d.bad # "none") \/ (t = "M" /\ d.mbroken)
 HasJsonBody(d, t) == t = "M" /\ d.body \notin {"none", "form"}
 (* the JSON reference of an operation: "#/paths/" + RFC 6901 escape of the path ("~" -> "~0", "/" -> "~1") + "/" + method *)
 Esc(path) == CASE path = "/m/{id}" -> "~1m~1{id}" [] path = "/z" -> "~1z" [] path = "/f/~1" -> "~1f~1~01" [] path = "/f/~0" -> "~1f~1~00"
@@ -261,6 +268,7 @@ DocId(d) == 1 * B2N(d.plK1)
           + 49766400 * B2N(d.qcontent)
           + 99532800 * B2N(d.secgen)
           + 199065600 * B2N(d.oNoId)
+          + 398131200 * B2N(d.mbroken)
 Export == IF hist = <<>> THEN TRUE
           ELSE IF First
           THEN PrintT(<<"CASE", ToJson([id |-> DocId(doc), d |-> doc, w |-> Weight(doc), ser |-> ser, lay |-> lay, h |-> hist,
